@@ -52,11 +52,69 @@ def tree_hash():
 
 
 # ---------------------------------------------------------------------------- E1
+_skeleton = None
+
+
+def skeleton_hash():
+    """Hash of everything a function's VCs depend on besides its own body: the declaration skeleton of
+    every repository module (class headers, fields, method names and decorators, module constants,
+    imports - function bodies blanked), the sidecar contracts and the VC generator itself."""
+    global _skeleton
+    if _skeleton is not None:
+        return _skeleton
+    import ast
+    h = hashlib.sha256()
+    for dp, dn, fn in sorted(os.walk(os.path.join(REPO, 'numba_scfg'))):
+        dn.sort()
+        if '/tests' in dp or '__pycache__' in dp:
+            continue
+        for f in sorted(fn):
+            if not f.endswith('.py'):
+                continue
+            with open(os.path.join(dp, f)) as fh:
+                try:
+                    tree = ast.parse(fh.read())
+                except SyntaxError:
+                    h.update(b'syntax-error')
+                    continue
+            for n in ast.walk(tree):
+                if isinstance(n, (ast.FunctionDef, ast.AsyncFunctionDef)):
+                    n.body = [ast.Pass()]
+            h.update((os.path.join(dp, f) + ast.dump(tree)).encode())
+    for d in ('pyvc', 'contracts'):
+        for f in sorted(os.listdir(os.path.join(HERE, d))):
+            if f.endswith('.py'):
+                with open(os.path.join(HERE, d, f), 'rb') as fh:
+                    h.update(fh.read())
+    _skeleton = h.hexdigest()
+    return _skeleton
+
+
 def e1_task(qual):
     import contracts  # noqa
     from pyvc.run import verify
+    from pyvc import source as SRC
     try:
-        return verify(qual, timeout_ms=int(os.environ.get('VERIF_SMT_TIMEOUT_MS', '30000')))
+        # verdict cache: same function text + same skeleton/contracts/generator => same VCs => same verdicts
+        m, fn, cls = SRC.find_function(qual)
+        key = None
+        if fn is not None and os.environ.get('VERIF_NO_CACHE') != '1':
+            key = hashlib.sha256((qual + SRC.segment(m, fn) + skeleton_hash()
+                                  + os.environ.get('VERIF_SMT_TIMEOUT_MS', '')).encode()).hexdigest()[:24]
+            path = os.path.join(CACHE_DIR, 'e1-%s.json' % key)
+            if os.path.exists(path):
+                with open(path) as fh:
+                    r = json.load(fh)
+                r['cached'] = True
+                return r
+        r = verify(qual, timeout_ms=int(os.environ.get('VERIF_SMT_TIMEOUT_MS', '30000')))
+        if key is not None and r['status'] == 'ok':
+            os.makedirs(CACHE_DIR, exist_ok=True)
+            tmp = path + '.%d.tmp' % os.getpid()
+            with open(tmp, 'w') as fh:
+                json.dump(r, fh, default=str)
+            os.replace(tmp, path)
+        return r
     except Exception:
         return {'qual': qual, 'status': 'error', 'reason': traceback.format_exc(), 'obligations': []}
 
